@@ -34,7 +34,13 @@ DivOK(x, y, m) == IF m % 2 = 1 THEN HasInverse(y, m) ELSE (x % m) % GCD(y % m, m
 DivSound(x, y, m, u) == u \in 0..(m - 1) /\ MulMod(y, u, m) = x % m
 
 ---------------------------------------------------------------------------
-CheckNat(e) ==
+\* an operand that is not the output object keeps its value
+\* (an explicit result capacity below an operand's announced length makes saferith cut that operand in place: not claimed)
+CapCovers(e) == ("c" \notin DOMAIN e) \/ e.c < 0 \/ e.c >= Max2(e.cx, e.cy)
+KeptN(e) == CapCovers(e) => (e.al # 1 => e.xp = NX(e)) /\ (e.al # 2 => e.yp = NY(e))
+KeptI(e) == CapCovers(e) => (e.al # 1 => e.xp = IX(e)) /\ (e.al # 2 => e.yp = IY(e))
+
+CheckNat0(e) ==
   CASE e.a = "n.set" -> e.r = Trunc(e.x, e.c) /\ e.ra = e.c /\ e.tl = BitLen(e.r)
     [] e.a = "n.add" -> LET C == Cap(e.c, Max2(e.cx, e.cy) + 1) IN e.r = Trunc(NX(e) + NY(e), C) /\ e.ra = C
     [] e.a = "n.sub" -> LET C == Cap(e.c, Max2(e.cx, e.cy)) IN e.r = Trunc(NX(e) - NY(e), C) /\ e.ra = C
@@ -45,7 +51,7 @@ CheckNat(e) ==
          IN e.r = Trunc(BitwiseN(op, NX(e), NY(e), 31), C) /\ e.ra = C
     [] e.a \in {"n.div", "n.divvt"} ->
          /\ e.ok <=> NY(e) # 0
-         /\ e.ok => IsEuclid(NX(e), NY(e), e.q, e.rem)
+         /\ e.ok => IsEuclid(NX(e), NY(e), e.q, e.rem) /\ e.qa >= 0 /\ e.rema >= 0
          /\ ~e.ok => e.q = Stale(e.al, NX(e), NY(e), 12345) /\ e.rem = 77
     [] e.a = "n.gcd" -> e.r = GCD(NX(e), NY(e))
     [] e.a = "n.lcm" -> e.r = LCM(NX(e), NY(e))
@@ -82,8 +88,10 @@ CheckNat(e) ==
     [] e.a = "n.rand" -> (e.ok <=> e.lo < e.hi) /\ (e.ok => e.lo <= e.r /\ e.r < e.hi)
     [] OTHER -> FALSE
 
+CheckNat(e) == CheckNat0(e) /\ (e.a \in {"n.add", "n.sub", "n.mul", "n.and", "n.or", "n.xor", "n.div", "n.divvt", "n.gcd", "n.lcm"} => KeptN(e))
+
 ---------------------------------------------------------------------------
-CheckInt(e) ==
+CheckInt0(e) ==
   CASE e.a = "i.set" -> e.r = TruncI(e.x, e.c) /\ e.ra = e.c /\ e.tl = BitLen(e.r) /\ (e.r # 0 => (e.neg <=> e.r < 0))
     [] e.a = "i.add" -> LET C == Cap(e.c, Max2(e.cx, e.cy) + 1) IN e.r = IX(e) + IY(e) /\ e.ra = C
     [] e.a = "i.sub" -> LET C == Cap(e.c, Max2(e.cx, e.cy) + 1) IN e.r = IX(e) - IY(e) /\ e.ra = C
@@ -153,6 +161,8 @@ CheckInt(e) ==
          /\ e.rsh => e.r = Sgn(X) * Trunc(Abs(X) \div Pow2(e.s), CR)
     [] e.a = "i.rand" -> (e.ok <=> e.lo < e.hi) /\ (e.ok => e.lo <= e.r /\ e.r < e.hi)
     [] OTHER -> FALSE
+
+CheckInt(e) == CheckInt0(e) /\ (e.a \in {"i.add", "i.sub", "i.mul", "i.gcd", "i.and", "i.or", "i.xor", "i.div", "i.divvt", "i.ediv", "i.edivvt"} => KeptI(e))
 
 ---------------------------------------------------------------------------
 CheckMod(e) ==
@@ -373,9 +383,10 @@ CheckCRT(e) ==
          /\ e.mx = e.p * e.q
     [] e.a = "crt.rec" ->
          \* the unique residue below p*q (when the q-residue is reduced; otherwise a representative, see Params.Recombine)
-         LET want == CRT(e.mp, e.mq, e.p, e.q)
-             off == (e.mq \div e.q) * e.q IN
-         /\ e.r1 = want + off /\ e.r2 = want + off /\ e.r3 = want + off /\ e.ok2
+         \* with an unreduced q-residue the representative in [mq, mq + p*q) is returned (m = mq + q*h, h < p)
+         LET IsRec(r) == /\ r % e.p = e.mp % e.p /\ r % e.q = e.mq % e.q /\ e.mq <= r /\ r < e.mq + e.p * e.q
+                         /\ e.mq < e.q => r = CRT(e.mp, e.mq, e.p, e.q) IN
+         /\ IsRec(e.r1) /\ IsRec(e.r2) /\ IsRec(e.r3) /\ e.ok2
     [] e.a = "crt.dec" ->
          /\ e.dp = e.m % e.p /\ e.sp = e.dp /\ e.pp = e.dp
          /\ e.dq = e.m % e.q /\ e.sq = e.dq /\ e.pq = e.dq
@@ -429,8 +440,8 @@ CheckZn(e) ==
     [] e.a = "zn.un" ->
          LET n == e.n
              v == e.x % n IN
-         /\ e.unit <=> Coprime(v, n)
-         /\ e.unitu <=> Coprime(v, n)
+         /\ e.unit <=> (e.x < n /\ Coprime(v, n))                          \* FromUint64 refuses unreduced values
+         /\ e.unitu <=> Coprime(v, n)                                      \* FromNatCT reduces
          /\ e.unit => /\ e.v = v /\ IsInverse(v, e.inv, n)
                       /\ e.jac = Jacobi(v, n) /\ e.jacu = e.jac
                       /\ e.qr <=> IsQR(v, n)                              \* with the factorisation: a true residuosity test
@@ -490,9 +501,8 @@ CheckWide(e) ==
          /\ e.divok /\ e.q.k = 0 /\ e.q.s >= 0 /\ e.q.s < 65536 /\ IsW(e.r) =>
               /\ WEq(u, WAdd(WScale(e.q.s, v), e.r)) /\ WIsNat(e.r) /\ WLess(e.r, v)
               /\ WEq(e.q2, e.q) /\ WEq(e.r2, e.r)
-         \* a quotient outside the window can only be legitimate when the divisor is small
-         /\ e.divok /\ ~(e.q.k = 0 /\ e.q.s >= 0 /\ e.q.s < 65536 /\ IsW(e.r)) => v.k = 0
-         /\ e.divok /\ v.k = 0 /\ IsW(e.r) => e.r.k = 0 /\ e.r.s = WMod(u, v.s) /\ WEq(e.r2, e.r)
+         \* (a quotient or remainder outside the window is not decided here)
+         /\ e.divok /\ v.k = 0 /\ v.s <= 46340 /\ IsW(e.r) => e.r.k = 0 /\ e.r.s = WMod(u, v.s) /\ WEq(e.r2, e.r)
          /\ e.hasgcd => e.gcd = GCD(WMod(u, v.s), v.s)
     [] e.a = "w.scale" -> WEq(e.r, WScale(e.c, e.u))
     [] e.a = "w.mod" ->
